@@ -110,7 +110,8 @@ def run(fx, chk, tier):
     chk.floor("T1", "top-level child-size hand-offs", n["T1"], 8)
     chk.floor("T2", "reader-side I/O call expressions", n["T2"], 300)
     chk.floor("T3", "payload pairing obligations", n["T3"], 3)
-    chk.floor("T4", "guarded unwraps in decoders", n["T4"], 15)
+    # no floor for T4: required-box unwraps may legitimately be rewritten as `ok_or(..)?` (no unwrap left to guard)
+    chk.counts["T4:guarded unwraps in decoders"] = n["T4"]
     chk.floor("T5", "loop progress obligations", n["T5"], 60)
     chk.analysed["instances"] = n
     return chk.finish(
